@@ -31,6 +31,7 @@ func init() { register("walk", suiteWalk) }
 type wnode struct {
 	name string
 	dir  bool
+	link bool // a file entry that is a symbolic link to a regular file outside the tree
 	kids []*wnode
 }
 
@@ -58,7 +59,7 @@ func genWalkTree(r *Rng, depth int) []*wnode {
 				continue
 			}
 			used[nm] = true
-			out = append(out, &wnode{name: nm})
+			out = append(out, &wnode{name: nm, link: r.Chance(15)})
 		}
 	}
 	sort.Slice(out, func(i, j int) bool { return out[i].name < out[j].name })
@@ -66,17 +67,38 @@ func genWalkTree(r *Rng, depth int) []*wnode {
 }
 
 func materialise(root string, kids []*wnode) error {
+	n := 0
+	return materialiseIn(root, kids, root+".targets", &n)
+}
+
+// a symlinked source file is a source file: the go tool compiles it, so the walker has to collect it
+func materialiseIn(root string, kids []*wnode, targets string, n *int) error {
 	if err := os.MkdirAll(root, 0o755); err != nil {
 		return err
 	}
 	for _, k := range kids {
 		p := filepath.Join(root, k.name)
-		if k.dir {
-			if err := materialise(p, k.kids); err != nil {
+		switch {
+		case k.dir:
+			if err := materialiseIn(p, k.kids, targets, n); err != nil {
 				return err
 			}
-		} else if err := os.WriteFile(p, []byte("package x\n"), 0o644); err != nil {
-			return err
+		case k.link:
+			*n++
+			if err := os.MkdirAll(targets, 0o755); err != nil {
+				return err
+			}
+			t := filepath.Join(targets, fmt.Sprintf("t%d.txt", *n))
+			if err := os.WriteFile(t, []byte("package x\n"), 0o644); err != nil {
+				return err
+			}
+			if err := os.Symlink(t, p); err != nil {
+				return err
+			}
+		default:
+			if err := os.WriteFile(p, []byte("package x\n"), 0o644); err != nil {
+				return err
+			}
 		}
 	}
 	return nil
